@@ -10,7 +10,7 @@ import decimal
 import io
 import itertools
 
-from mc import engine, harness
+from mc import engine, harness, readermachine
 from mc.core import Part
 from mc.models import fieldmodel
 from mc.props import c01
@@ -57,11 +57,18 @@ def observe_via_cid(decl, cells):
     import cutplace
 
     m = harness.modules()
-    rows = harness.cid_rows(decl["preset"], [decl], allowed=decl.get("allowed"), line_delimiter="lf")
-    cid = harness.make_cid(rows)
-    text, usable = data_text(decl, cells)
+    if decl["fmt"] in ("excel", "ods"):
+        # the cells as text cells of a one-column sheet, read through the container reader
+        cid = harness.make_cid(harness.cid_rows(decl["preset"], [decl], allowed=decl.get("allowed")))
+        usable = [c for c in cells if c != "" and all(ch in "\t\n" or (ch >= " " and not 0xD800 <= ord(ch) <= 0xDFFF and ch not in "\ufffe\uffff") for ch in c) and "\r" not in c]
+        source, _ = readermachine.store({"preset": decl["preset"], "odf": {"span_range": [1, 4]}}, [decl], [[c] for c in usable], name="c02cells")
+    else:
+        rows = harness.cid_rows(decl["preset"], [decl], allowed=decl.get("allowed"), line_delimiter="lf")
+        cid = harness.make_cid(rows)
+        text, usable = data_text(decl, cells)
+        source = harness.NamedStringIO(text)
     verdicts = []
-    for item in cutplace.rows(cid, harness.NamedStringIO(text), on_error="yield"):
+    for item in cutplace.rows(cid, source, on_error="yield"):
         verdicts.append("reject" if isinstance(item, m["errors"].DataError) else "accept")
     return usable, verdicts
 
@@ -150,7 +157,7 @@ def judge(case, part):
         part.validated += 1
         if again != direct[cell]:
             part.fail(tag % "verdict-changes-when-the-cell-is-validated-again", {"decl": case["decl"], "cells": [cell, cell]}, direct[cell], again)
-    if decl["fmt"] in ("delimited", "fixed") and not case.get("no_cid"):
+    if not case.get("no_cid"):
         try:
             usable, verdicts = observe_via_cid(decl, cells)
         except Exception as error:
